@@ -307,3 +307,43 @@ func VerifC20EmitReplay() {
 		}
 	}
 }
+
+// VerifC20Concurrent: the first two requests of a node arrive at the same time (after a restart
+// nothing has been emitted yet, so both are the first to emit their metrics): every interleaving
+// of the two handlers within the delay bound, production metrics enabled. No panic (a metric
+// registered twice panics inside the prometheus client), and the node keeps serving.
+func VerifC20Concurrent() {
+	m := prometheus.NewMetrics()
+	st := smetrics.NewKvStorage(zzmodel.NewStore(), m)
+	be := backend.NewBackend(st, backend.Config{Prefix: "/r", EnableEtcdCompatibility: true, WatchCacheSize: 4}, m)
+	be.SetCurrentRevision(5)
+	peers := &zzsrv.Peers{Leader: true}
+	w := &world{be: be, bs: brain.New(be, m, peers), es: etcd.New(be, m, peers)}
+	ctx := context.Background()
+	kind := zzverif.Choose("kind", 4)
+	done := make(chan struct{}, 2)
+	zzverif.ExploreSchedules(zzverif.Param("preempt", 1))
+	for i := 0; i < 2; i++ {
+		key := []byte{'/', 'r', '/', byte('a' + i)}
+		zzverif.Go("q"+string(rune('0'+i)), func() {
+			switch kind {
+			case 0:
+				w.bs.Get(ctx, &proto.GetRequest{Key: key})
+			case 1:
+				w.es.Range(ctx, &etcdserverpb.RangeRequest{Key: key})
+			case 2:
+				w.bs.Create(ctx, &proto.CreateRequest{Key: key, Value: []byte("v")})
+			default:
+				w.bs.Range(ctx, &proto.RangeRequest{Key: []byte("/r/"), End: []byte("/r0")})
+			}
+			done <- struct{}{}
+		})
+	}
+	<-done
+	<-done
+	zzverif.StopExploring()
+	zzverif.WaitIdle()
+	cr, err := w.bs.Create(ctx, &proto.CreateRequest{Key: []byte("/r/fresh"), Value: []byte("v")})
+	zzverif.Assert(err == nil && cr.Succeeded, "a later create still succeeds")
+	zzverif.Cover("done")
+}
